@@ -82,7 +82,9 @@ func (lalr *LALR1) fechStateNumber(rIndex int) []int {
 	for num, s := range lalr.G.LR0.LR0Closure {
 		for _, it := range s.Items {
 			if it.RuleIndex == rIndex {
+				// once per state, however many items of the rule it holds
 				ret = append(ret, num)
+				break
 			}
 		}
 	}
@@ -91,10 +93,19 @@ func (lalr *LALR1) fechStateNumber(rIndex int) []int {
 
 // return  trans index
 func (lalr *LALR1) fetchTransIndex(state, sym int) (int, error) {
-	for index, tr := range lalr.trans {
-		if tr.q == state && sym == int(tr.sym_or_rule) {
-			return index, nil
+	// the relations walk whole right parts through the automaton: a scan of
+	// all transitions per step made long rules take minutes
+	if lalr.transIndex == nil {
+		lalr.transIndex = make(map[[2]int]int, len(lalr.trans))
+		for index, tr := range lalr.trans {
+			key := [2]int{tr.q, int(tr.sym_or_rule)}
+			if _, ok := lalr.transIndex[key]; !ok {
+				lalr.transIndex[key] = index
+			}
 		}
+	}
+	if index, ok := lalr.transIndex[[2]int{state, sym}]; ok {
+		return index, nil
 	}
 	return MaxInt, fmt.Errorf("not found")
 }
@@ -183,14 +194,39 @@ func (lalr *LALR1) GenAcceptCode() int {
 	return len(lalr.G.LR0.LR0Closure) + 200
 }
 
-// walk from state along the symbols, return the state reached, or -1
-func (lalr *LALR1) walkPath(state int, syms []*symbol.Symbol) int {
-	for _, sy := range syms {
-		index, err := lalr.fetchTransIndex(state, int(sy.ID))
-		if err != nil {
-			return -1
-		}
-		state = lalr.trans[index].to
+// pathStates follows the right part of a rule through the automaton from
+// state q: element i is the state reached after the first i symbols, -1 once
+// the path has left the automaton. The relations ask for the same paths over
+// and over (once per transition), so they are kept.
+func (lalr *LALR1) pathStates(q int, rule int) []int {
+	key := [2]int{q, rule}
+	if p, ok := lalr.pathCache[key]; ok {
+		return p
 	}
-	return state
+	if lalr.pathCache == nil {
+		lalr.pathCache = make(map[[2]int][]int)
+	}
+	rhs := lalr.G.ProductoinRules[rule].RighPart
+	p := make([]int, len(rhs)+1)
+	state := q
+	p[0] = state
+	for i, sy := range rhs {
+		if state >= 0 {
+			if index, err := lalr.fetchTransIndex(state, int(sy.ID)); err == nil {
+				state = lalr.trans[index].to
+			} else {
+				state = -1
+			}
+		}
+		p[i+1] = state
+	}
+	lalr.pathCache[key] = p
+	return p
+}
+
+// pathEnd is the state reached from q over the whole right part of the rule,
+// -1 if there is no such path.
+func (lalr *LALR1) pathEnd(q int, rule int) int {
+	p := lalr.pathStates(q, rule)
+	return p[len(p)-1]
 }
